@@ -56,14 +56,14 @@ def true_ranks(T):
     return out, ok
 
 
-def run(c, seed, T, nswp, cache, vld, cb=None):
+def run(c, seed, T, nswp, cache, vld, cb=None, m=None):
     d = len(c['shape'])
     Y0 = space.tt(c['shape'], [1] + [c['r0']] * (d - 1) + [1], 'gen', seed, tag=29)
     b0 = ref.core_bytes(Y0)
-    f = RecordingObjective(T)
+    f = RecordingObjective(T, ret=c.get('ret', 'float64'))
     ca = RecordingCache() if cache else None
     info = {}
-    kw = dict(nswp=nswp, dr_min=c['dr'][0], dr_max=c['dr'][1], info=info, cache=ca, cb=cb, m_cache_scale=10 ** 9)
+    kw = dict(nswp=nswp, m=m, dr_min=c['dr'][0], dr_max=c['dr'][1], info=info, cache=ca, cb=cb, m_cache_scale=10 ** 9)
     if vld:
         I = space.grid_array(c['shape'])
         I = I[::2] if len(I) > 3 else I
@@ -171,6 +171,17 @@ def check_config(c):
         res.check(ic.get('m') == len(evald) and iu.get('m') == sum(len(b) for b in fu.batches), 'info.m', case, 'info m differs from the evaluated count', tags)
         res.check(ic.get('m') + ic.get('m_cache') == iu.get('m') or ic.get('stop') == 'conv', 'cache.accounting', case,
                   lambda: 'm + m_cache = %r, uncached m = %r' % (ic.get('m') + ic.get('m_cache'), iu.get('m')), tags)
+        res.check(all(G.dtype == np.float64 for G in Yu) and all(G.dtype == np.float64 for G in Yc), 'dtype', case,
+                  lambda: 'cores are not float64: %s / %s' % ([str(G.dtype) for G in Yu], [str(G.dtype) for G in Yc]), tags)
+        # a budget that ends the cached run: the dictionary still holds exactly what was evaluated, info['m'] counts it
+        if not vld and iu.get('m', 0) > 4:
+            res.ev()
+            mb = iu['m'] // 2
+            Yb, ib, fb, cab, _, _ = run(c, seed, T, NS, True, False, m=mb)
+            evb = [tuple(int(x) for x in row) for b in fb.batches for row in b]
+            res.check(ib.get('m') == len(evb) and len(evb) <= mb and set(cab.keys()) == set(evb), 'budget.cache', dict(case, m=mb),
+                      lambda: "budget m=%d with cache: info['m']=%r, %d indices sent to the objective, %d cache entries, stop=%r" % (
+                          mb, ib.get('m'), len(evb), len(cab), ib.get('stop')), tags + ['budget'])
         # ---- info describes the returned tensor ------------------------------------------------------------
         for (Y, info, cb, nm) in ((Yu, iu, cbu, 'uncached'), (Yc, ic, cbc, 'cached')):
             with warnings.catch_warnings():
@@ -239,6 +250,11 @@ def strata(tier, seed):
                 cs.append(dict(shape=sh, rho=rho, pat='gen', r0=rho if dr == (0, 0) else 1, dr=list(dr), seed=seed, mag=mag, prefix_runs=[1]))
     cs.append(dict(shape=[3, 2, 3], rho=2, pat='gen', r0=2, dr=[0, 0], seed=seed, big_vld=20000, prefix_runs=[1]))
     cs.append(dict(shape=[3, 2, 3], rho=2, pat='gen', r0=1, dr=[1, 1], seed=seed, big_vld=40001, prefix_runs=[]))
+    # objectives that answer in other forms than float64 arrays (float32 / Python lists / integer arrays), on integer-valued targets
+    for ret in ('float32', 'list', 'int'):
+        for sh, rho in (([3, 3, 2], 2), ([4, 3], 2)):
+            for dr in ((0, 0), (1, 1)):
+                cs.append(dict(shape=sh, rho=rho, pat='intA', r0=rho if dr == (0, 0) else 1, dr=list(dr), seed=seed, ret=ret, prefix_runs=[1]))
     for sh, rho in (([5, 5], 5), ([2, 2, 2, 2], 2), ([3, 3], 3), ([2, 4, 2], 2)):
         for r0 in (1, 2):
             for dr in ((1, 1), (1, 2), (2, 2)):
